@@ -196,10 +196,15 @@ EXPORT int snwprintf_s(wchar_t *restrict dest, rsize_t dmax,
             va_end(ap2);
         } else {
             wchar_t *tmp = (wchar_t *)malloc(dmax * sizeof(wchar_t));
-            va_start(ap2, fmt);
-            ret = vswprintf(tmp, dmax, fmt, ap2);
-            va_end(ap2);
-            free(tmp);
+            if (unlikely(!tmp)) {
+                errno = ENOMEM;
+                ret = -1;
+            } else {
+                va_start(ap2, fmt);
+                ret = vswprintf(tmp, dmax, fmt, ap2);
+                va_end(ap2);
+                free(tmp);
+            }
         }
         /* this will bump ret to > 0 */
     }
